@@ -31,6 +31,25 @@ theorem searchTree_of_wf {n : Node α} (hi : n.Inv) (hs : Sorted n.toList) : n.S
     rw [inv_inner] at hi
     exact ⟨ihl hi.1 hsl, ihr hi.2.1 hsr, hbl, hbr, hmem⟩
 
+theorem forall_of_wf {n : Node α} (hi : n.Inv) (hs : Sorted n.toList) :
+    n.Forall (fun m => m.WF ∧ m.height = (m.realHeight : Int) ∧ m.size = (m.toList.length : Int) ∧
+      (m.height = 0 ↔ m.isLeaf = true)) := by
+  induction n with
+  | leaf k v => exact ⟨⟨hi, hs⟩, by simp [realHeight], by simp, by simp [isLeaf]⟩
+  | inner k ht s l r ihl ihr =>
+    obtain ⟨hsl, hsr, -⟩ := bounds hi hs
+    have hh := height_eq_realHeight hi
+    have hz := size_eq_length hi
+    have hi' := hi
+    rw [inv_inner] at hi'
+    refine ⟨⟨⟨hi, hs⟩, hh, hz, ?_⟩, ihl hi'.1 hsl, ihr hi'.2.1 hsr⟩
+    have := height_nonneg hi'.1
+    have := height_nonneg hi'.2.1
+    simp only [height_inner, isLeaf]
+    constructor
+    · intro h0; omega
+    · intro h0; simp at h0
+
 /-- an AVL tree of height `h` has at least `2^(h/2)` leaves -/
 theorem pow_le_length {n : Node α} (hi : n.Inv) : 2 ^ (n.realHeight / 2) ≤ n.toList.length := by
   induction n with
